@@ -51,6 +51,7 @@ SCHEMAS = {
     "verif-clash": ([S + "/verif-clash.yang"], [S]),
     "verif-action": ([S + "/verif-action.yang"], [S]),
     "lab-telemetry": ([S + "/lab-telemetry.yang"], [S]),
+    "verif-unionshapes": ([S + "/verif-unionshapes.yang"], [S]),
     "verif-multi": ([S + "/multi/vm-base.yang", S + "/multi/vm-aug-a.yang", S + "/multi/vm-aug-b.yang", S + "/multi/vm-aug-c.yang", S + "/multi/vm-types.yang", S + "/multi/vm-Types.yang"], [S + "/multi"]),
     "cts": (["integration_tests/schemaops/yang/ctestschema.yang", "integration_tests/schemaops/yang/ctestschema-rootmod.yang"], ["integration_tests/schemaops/yang"]),
     "uts": (["integration_tests/schemaops/yang/utestschema.yang", "integration_tests/schemaops/yang/refschema.yang",
@@ -90,7 +91,7 @@ QUICK_COMBOS = [
     ("verif-oc", "go", "compress-rich-simple"), ("verif-oc", "go", "uncompressed-rich"), ("verif-oc", "go", "paths"), ("verif-oc", "proto", "proto-hier-compress"),
     ("verif-clash", "go", "compress-rich-simple"), ("verif-clash", "go", "uncompressed-rich"), ("verif-clash", "go", "paths"), ("verif-clash", "proto", "proto-hier-compress"),
     ("verif-action", "go", "compress-rich-simple"), ("verif-action", "go", "paths"), ("verif-action", "proto", "proto-hier-compress"),
-    ("lab-telemetry", "proto", "proto-flat"),
+    ("lab-telemetry", "proto", "proto-flat"), ("verif-unionshapes", "go", "compress-rich-simple"), ("verif-unionshapes", "proto", "proto-flat"),
     ("verif-multi", "go", "compress-rich-simple"), ("verif-multi", "go", "uncompressed-rich"), ("verif-multi", "proto", "proto-hier-compress"),
     ("cts", "go", "compress-rich-simple"), ("uts", "go", "uncompressed-rich"), ("tm-enum-module", "go", "compress-opstate"), ("tm-enum-union", "go", "compress-rich-simple"),
     ("tm-openconfig-simple", "go", "paths-split"), ("tm-openconfig-withlist", "go", "compress-wrapper"), ("oc-options", "go", "compress-excludestate"),
